@@ -351,7 +351,7 @@ def _emission_predicates(ctx):
                 continue
             calls_g = [c for c in calls_in(f) if dotted_of(c.func) == g.name]
             writes = [c for c in calls_in(f) if (dotted_of(c.func) or "").endswith("serialize_value_into")]
-            if calls_g and writes:
+            if (calls_g or g.key in ctx.repo.expanded_into(f)) and writes:
                 used += 1
         if used:
             out.append(g)
